@@ -571,27 +571,71 @@ structure Decoder_Skip.St where
 
 abbrev Decoder_Skip.R := Bytes × Go.Err
 
-/-- the body of `Decoder_Skip`, statement by statement -/
-def Decoder_Skip.body (fuel : Nat) : Decoder_Skip.St → Go.Out Decoder_Skip.St Decoder_Skip.R :=
-  (Go.seq (Go.seq (fun s => if (BitVec.sle (BitVec.ofNat 64 s.d_p.length) s.d_offset) then (fun s => .ret (([] : Bytes), Go.Err.unexpectedEOF) s) s else Go.skip s)
-    (Go.seq (fun s => .next { s with sz := (SizeOfTagKey s.tag) })
-    (Go.seq (fun s => .next { s with bof := (s.d_offset - s.sz) })
-    (Go.seq (fun s => if (BitVec.slt s.bof 0#64) then (fun s => .next { s with bof := 0#64 }) s else Go.skip s)
-    (Go.seq (fun s => if ((s.d_keyEnd == s.d_offset) && (BitVec.slt s.d_keyStart s.d_keyEnd)) then (fun s => .next { s with bof := s.d_keyStart }) s else Go.skip s)
-    (Go.seq (fun s => if (s.d_mode == 0#64) then (Go.seq (fun s => if ((s.bof).toNat ≤ s.d_p.length) then match (DecodeVarint fuel (s.d_p.drop (s.bof).toNat)) with | .ret r c => .next { s with v := r.1, n := r.2.1, err := r.2.2 } | .next _ => .panic | .panic => .panic | .diverge => .diverge else .panic)
+/-- statement 1 of `Decoder.Skip` -/
+def Decoder_Skip.s1 (fuel : Nat) : Decoder_Skip.St → Go.Out Decoder_Skip.St Decoder_Skip.R :=
+  (fun s => if (BitVec.sle (BitVec.ofNat 64 s.d_p.length) s.d_offset) then (fun s => .ret (([] : Bytes), Go.Err.unexpectedEOF) s) s else Go.skip s)
+
+/-- statement 2 of `Decoder.Skip` -/
+def Decoder_Skip.s2 (fuel : Nat) : Decoder_Skip.St → Go.Out Decoder_Skip.St Decoder_Skip.R :=
+  (fun s => .next { s with sz := (SizeOfTagKey s.tag) })
+
+/-- statement 3 of `Decoder.Skip` -/
+def Decoder_Skip.s3 (fuel : Nat) : Decoder_Skip.St → Go.Out Decoder_Skip.St Decoder_Skip.R :=
+  (fun s => .next { s with bof := (s.d_offset - s.sz) })
+
+/-- statement 4 of `Decoder.Skip` -/
+def Decoder_Skip.s4 (fuel : Nat) : Decoder_Skip.St → Go.Out Decoder_Skip.St Decoder_Skip.R :=
+  (fun s => if (BitVec.slt s.bof 0#64) then (fun s => .next { s with bof := 0#64 }) s else Go.skip s)
+
+/-- statement 5 of `Decoder.Skip` -/
+def Decoder_Skip.s5 (fuel : Nat) : Decoder_Skip.St → Go.Out Decoder_Skip.St Decoder_Skip.R :=
+  (fun s => if ((s.d_keyEnd == s.d_offset) && (BitVec.slt s.d_keyStart s.d_keyEnd)) then (fun s => .next { s with bof := s.d_keyStart }) s else Go.skip s)
+
+/-- statement 6 of `Decoder.Skip` -/
+def Decoder_Skip.s6 (fuel : Nat) : Decoder_Skip.St → Go.Out Decoder_Skip.St Decoder_Skip.R :=
+  (fun s => if (s.d_mode == 0#64) then (Go.seq (fun s => if ((s.bof).toNat ≤ s.d_p.length) then match (DecodeVarint fuel (s.d_p.drop (s.bof).toNat)) with | .ret r c => .next { s with v := r.1, n := r.2.1, err := r.2.2 } | .next _ => .panic | .panic => .panic | .diverge => .diverge else .panic)
     (Go.seq (fun s => if (s.err != Go.Err.nil) then (fun s => .ret (([] : Bytes), s.err) s) s else Go.skip s)
     (Go.seq (fun s => if (s.n != s.sz) then (fun s => .ret (([] : Bytes), Go.Err.invalidVarint) s) s else Go.skip s)
     (Go.seq (fun s => .next { s with thisTag := (s.v >>> 3), thisWireType := (s.v &&& 7#64) })
     (fun s => if ((s.thisTag != s.tag) || (s.thisWireType != s.wt)) then (fun s => .ret (([] : Bytes), (Go.Err.other "DecoderSkipError")) s) s else Go.skip s))))) s else Go.skip s)
-    (Go.seq (fun s => .next { s with skipped := 0#64 })
-    (Go.seq (fun s => if ((s.wt == 0#64)) then (Go.seq (fun s => if ((s.d_offset).toNat ≤ s.d_p.length) then match (DecodeVarint fuel (s.d_p.drop (s.d_offset).toNat)) with | .ret r c => .next { s with n := r.2.1, err := r.2.2 } | .next _ => .panic | .panic => .panic | .diverge => .diverge else .panic)
+
+/-- statement 7 of `Decoder.Skip` -/
+def Decoder_Skip.s7 (fuel : Nat) : Decoder_Skip.St → Go.Out Decoder_Skip.St Decoder_Skip.R :=
+  (fun s => .next { s with skipped := 0#64 })
+
+/-- statement 8 of `Decoder.Skip` -/
+def Decoder_Skip.s8 (fuel : Nat) : Decoder_Skip.St → Go.Out Decoder_Skip.St Decoder_Skip.R :=
+  (fun s => if ((s.wt == 0#64)) then (Go.seq (fun s => if ((s.d_offset).toNat ≤ s.d_p.length) then match (DecodeVarint fuel (s.d_p.drop (s.d_offset).toNat)) with | .ret r c => .next { s with n := r.2.1, err := r.2.2 } | .next _ => .panic | .panic => .panic | .diverge => .diverge else .panic)
     (Go.seq (fun s => if (s.err != Go.Err.nil) then (fun s => .ret (([] : Bytes), s.err) s) s else Go.skip s)
     (fun s => .next { s with skipped := s.n }))) s else if ((s.wt == 1#64)) then (fun s => .next { s with skipped := 8#64 }) s else if ((s.wt == 2#64)) then (Go.seq (fun s => if ((s.d_offset).toNat ≤ s.d_p.length) then match (DecodeVarint fuel (s.d_p.drop (s.d_offset).toNat)) with | .ret r c => .next { s with l := r.1, n := r.2.1, err := r.2.2 } | .next _ => .panic | .panic => .panic | .diverge => .diverge else .panic)
     (Go.seq (fun s => if ((s.err != Go.Err.nil)) then (fun s => .ret (([] : Bytes), s.err) s) s else if ((s.n == 0#64)) then (fun s => .ret (([] : Bytes), Go.Err.invalidVarint) s) s else if ((BitVec.ult 2147483647#64 s.l)) then (fun s => .ret (([] : Bytes), (Go.Err.other "ErrLenOverflow")) s) s else Go.skip s)
     (fun s => .next { s with skipped := (s.n + s.l) }))) s else if ((s.wt == 5#64)) then (fun s => .next { s with skipped := 4#64 }) s else (fun s => .ret (([] : Bytes), (Go.Err.other "errorf")) s) s)
-    (Go.seq (fun s => if (BitVec.slt (BitVec.ofNat 64 s.d_p.length) (s.d_offset + s.skipped)) then (fun s => .ret (([] : Bytes), Go.Err.unexpectedEOF) s) s else Go.skip s)
-    (Go.seq (fun s => .next { s with d_offset := (s.d_offset + s.skipped) })
-    (fun s => if ((s.bof).toNat ≤ (s.d_offset).toNat ∧ (s.d_offset).toNat ≤ s.d_p.length) then .ret (((s.d_p.drop (s.bof).toNat).take ((s.d_offset).toNat - (s.bof).toNat)), Go.Err.nil) s else .panic)))))))))))
+
+/-- statement 9 of `Decoder.Skip` -/
+def Decoder_Skip.s9 (fuel : Nat) : Decoder_Skip.St → Go.Out Decoder_Skip.St Decoder_Skip.R :=
+  (fun s => if (BitVec.slt (BitVec.ofNat 64 s.d_p.length) (s.d_offset + s.skipped)) then (fun s => .ret (([] : Bytes), Go.Err.unexpectedEOF) s) s else Go.skip s)
+
+/-- statement 10 of `Decoder.Skip` -/
+def Decoder_Skip.s10 (fuel : Nat) : Decoder_Skip.St → Go.Out Decoder_Skip.St Decoder_Skip.R :=
+  (fun s => .next { s with d_offset := (s.d_offset + s.skipped) })
+
+/-- statement 11 of `Decoder.Skip` -/
+def Decoder_Skip.s11 (fuel : Nat) : Decoder_Skip.St → Go.Out Decoder_Skip.St Decoder_Skip.R :=
+  (fun s => if ((s.bof).toNat ≤ (s.d_offset).toNat ∧ (s.d_offset).toNat ≤ s.d_p.length) then .ret (((s.d_p.drop (s.bof).toNat).take ((s.d_offset).toNat - (s.bof).toNat)), Go.Err.nil) s else .panic)
+
+/-- the body of `Decoder_Skip`, statement by statement -/
+def Decoder_Skip.body (fuel : Nat) : Decoder_Skip.St → Go.Out Decoder_Skip.St Decoder_Skip.R :=
+  (Go.seq (Go.seq (Decoder_Skip.s1 fuel)
+    (Go.seq (Decoder_Skip.s2 fuel)
+    (Go.seq (Decoder_Skip.s3 fuel)
+    (Go.seq (Decoder_Skip.s4 fuel)
+    (Go.seq (Decoder_Skip.s5 fuel)
+    (Go.seq (Decoder_Skip.s6 fuel)
+    (Go.seq (Decoder_Skip.s7 fuel)
+    (Go.seq (Decoder_Skip.s8 fuel)
+    (Go.seq (Decoder_Skip.s9 fuel)
+    (Go.seq (Decoder_Skip.s10 fuel)
+    (Decoder_Skip.s11 fuel)))))))))))
     Go.missingReturn)
 
 def Decoder_Skip (fuel : Nat) (d_p : Bytes) (d_offset : BitVec 64) (d_mode : BitVec 64) (d_keyStart : BitVec 64) (d_keyEnd : BitVec 64) (tag : BitVec 64) (wt : BitVec 64) : Go.Out Decoder_Skip.St Decoder_Skip.R :=
